@@ -20,6 +20,11 @@ for pid in sorted(P.PROPS):
         level_note=s['note'],
         technique=s['technique'],
     ))
+NA = dict(P.NOT_APPLICABLE)
+for l in open(os.path.join(HERE, 'properties.jsonl')):
+    pid = json.loads(l)['id']
+    if pid not in P.PROPS and pid not in NA:
+        NA[pid] = 'not claimed: no check built for this property yet'
 m = dict(
     version=1,
     setup_cmd="python3 check.py --setup",
@@ -29,7 +34,7 @@ m = dict(
                   kind_free_text="contract-based deductive verification: Verus on mechanically extracted real functions + Kani/CBMC harnesses and function contracts on the real crates")],
     checks=checks,
     notes="Exit 2 from a check means undecided (lost anchor, unsupported construct, solver limit), never a violation. See DESIGN.md.",
-    not_applicable=[dict(property_id=k, reason=v) for k, v in sorted(P.NOT_APPLICABLE.items())],
+    not_applicable=[dict(property_id=k, reason=v) for k, v in sorted(NA.items())],
 )
 json.dump(m, open(os.path.join(HERE, 'MANIFEST.json'), 'w'), indent=1)
 print('MANIFEST.json:', len(checks), 'checks,', len(m['not_applicable']), 'not applicable')
